@@ -51,6 +51,7 @@ def main():
         }
         json.dump(meta, open(f"{d}/meta.json", "w"), indent=1)
         rows.append((name, prop, meta["caught_by"], {c: r["exit"] for c, r in results.items()}))
+    sh("cd /verif && ./build.sh all")  # leave no binary built from a patched tree behind
     with open("/verif/seeded/MATRIX.md", "a" if only else "w") as f:
         if not only:
             f.write("# Seeded changes vs. checks (quick tier)\n\n| seeded change | property | caught by | exit codes |\n|---|---|---|---|\n")
